@@ -31,9 +31,13 @@ TEXT = {
     "C15": {
         "level": "Theorems (Props/C15.lean), token level: print_is_render / print_is_render_stack (the string-stack printer inverts the postfix emission for every tree), "
                  "print_parse_roundtrip_partial (printed expression parses back to the same operator sequence), wf_opsOK, print_total, parens_are_preserved, date print/parse "
-                 "samples. Tied by PRINT cases (Lean printer text = Biscuit.Code() text, same before/after serialization, block position 1 or 2) and by re-parsing every "
-                 "printed statement with the library's parser.",
-        "note": COMMON_NOTE + "Token level; character level by correspondence. Printable domain as stated by the property.",
+                 "samples. Props/C15Text.lean, CHARACTER level, end to end for the printable domain (decidable predicates with _iff characterisations): printPred/Rule/Check_layout "
+                 "(the printer's text is an admissible layout of the rendered tokens of the quoted tree), lex_print*, parse_printFact / parse_printRule / parse_printCheck (the model's text "
+                 "entry point reads the printed text back as the quoted statement), print_parse_denote_fact / _rule / _check (printed text denotes the same fact / rule / check, sets in "
+                 "printed order), printDate_roundtrip for every instant before year 10000 (civil_from_days / days_from_civil inverse), and a proved failing example for every exclusion "
+                 "(negative integers, quotes in strings, invalid UTF-8, year >= 10000, empty sets, ill-formed names, unparenthesised precedence). Tied by PRINT cases (Lean printer text = "
+                 "Biscuit.Code() text, same before/after serialization, block position 1 or 2) and by re-parsing every printed statement with the library's parser.",
+        "note": COMMON_NOTE + "Not covered by the character-level theorems: the `Block { }` wrapper of printBlockCode, policies at content level (the printer has none), the library's #index print of strings inside sets, date literals as method receivers (conservative).",
         "technique": "Lean 4 proof (stack-machine invariant, composition with parse_render) + differential correspondence + round-trip witness search",
     },
     "C08": {
